@@ -10,7 +10,7 @@ from ..report import Report
 from ..rules.dispatch import check_forwarding, check_dispatch, argparse_choices
 from ..rules.freshname import check_fresh_names
 from ..callgraph import Resolver
-from ..util import callee_last, calls_named, enclosing_stmt
+from ..util import inline_temps, callee_last, calls_named, enclosing_stmt
 
 FZ = 'fggs.factorize'
 
@@ -243,7 +243,7 @@ def decomposition_setup(rep: Report, prog: Program) -> None:
                                                                         or isinstance(l.iter, ast.Call) and callee_last(l.iter) == 'chain')]
     okc = False
     for l in cl:
-        txt = norm(l.iter)
+        txt = norm(inline_temps(f.node, l.iter))          # `rule_edges = rule.rhs.edges()` named first
         # [e.nodes for e in rhs.edges()] + [rhs.ext]   or   chain((e.nodes for e in rhs.edges()), (rhs.ext,))
         ext_elem = any(f"[{a}.ext]" in txt or f"({a}.ext,)" in txt for a in rhs_alias)
         if '.nodes for' in txt and '.edges()' in txt and ext_elem and ' if ' not in txt:
